@@ -1,5 +1,6 @@
 use crate::core::Property;
 
+pub mod c01;
 pub mod c02;
 pub mod c03;
 pub mod c04;
@@ -11,6 +12,7 @@ pub mod c18;
 
 pub fn property(id: &str) -> Option<Property> {
     match id {
+        "C01" => Some(c01::property()),
         "C02" => Some(c02::property()),
         "C03" => Some(c03::property()),
         "C04" => Some(c04::property()),
